@@ -4,6 +4,7 @@ import (
 	"errors"
 	"fmt"
 	"sort"
+	"sync"
 	"time"
 
 	"github.com/pion/stun/v3"
@@ -254,6 +255,61 @@ func runC13(o *out, thorough bool, r *rng, _ []string) map[string]interface{} {
 		fs = append(fs, fNums(1, k+1, 50), fNums(4, 9), fNums(4, 9), fNums(2, k+1, 0), fNums(6))
 		o.run(1301, fs, true)
 		o.count("mass-expiry-histories")
+	}
+	// a Stop that lands while a Collect walks a LARGE table (the walk takes milliseconds): the stopped
+	// transaction gets exactly one terminal event, and a Stop that returned nil means it is "stopped"
+	{
+		var mu sync.Mutex
+		events := map[[stun.TransactionIDSize]byte][]error{}
+		a := stun.NewAgent(func(e stun.Event) {
+			if e.TransactionID[11] == 0x5B {
+				mu.Lock()
+				events[e.TransactionID] = append(events[e.TransactionID], e.Error)
+				mu.Unlock()
+			}
+		})
+		far := agentBase.Add(time.Hour)
+		for k := 0; k < 150000; k++ {
+			var t [stun.TransactionIDSize]byte
+			t[0], t[1], t[2], t[11] = byte(k>>16), byte(k>>8), byte(k), 0x5C
+			_ = a.Start(t, far)
+		}
+		bad := ""
+		for round := 0; round < 60 && bad == ""; round++ {
+			var t [stun.TransactionIDSize]byte
+			t[0], t[1], t[11] = byte(round>>8), byte(round), 0x5B
+			_ = a.Start(t, agentBase.Add(time.Duration(round+1)*time.Second))
+			now := agentBase.Add(time.Duration(round+1)*time.Second + time.Millisecond)
+			start := make(chan struct{})
+			var wg sync.WaitGroup
+			var stopRes error
+			wg.Add(2)
+			go func() { defer wg.Done(); <-start; _ = a.Collect(now) }()
+			go func() {
+				defer wg.Done()
+				<-start
+				time.Sleep(time.Duration(round%8) * 100 * time.Microsecond)
+				stopRes = a.Stop(t)
+			}()
+			close(start)
+			wg.Wait()
+			mu.Lock()
+			got := events[t]
+			mu.Unlock()
+			switch {
+			case len(got) != 1:
+				bad = fmt.Sprintf("x Stop during a Collect over 150000 transactions: %d terminal events for the stopped transaction (%v), Stop returned %v", len(got), got, stopRes)
+			case stopRes == nil && !errors.Is(got[0], stun.ErrTransactionStopped):
+				bad = fmt.Sprintf("x Stop during a Collect over 150000 transactions returned nil, the transaction's only event is %v", got[0])
+			case stopRes != nil && !errors.Is(got[0], stun.ErrTransactionTimeOut):
+				bad = fmt.Sprintf("x Stop during a Collect over 150000 transactions returned %v, the transaction's only event is %v", stopRes, got[0])
+			}
+		}
+		if bad != "" {
+			o.failFor("C13", "not-exactly-one-terminal-event", bad)
+		}
+		_ = a.Close()
+		o.count("stop-during-large-collect")
 	}
 	return map[string]interface{}{"exhaustive": false,
 		"exhaustive_part": fmt.Sprintf("all %d^%d histories of length %d over Start(3 ids x 2 deadlines), Stop(3 ids), StopWithError, Process(3 ids), Collect(4 times), SetHandler, Close: every reachable abstract table state up to that depth with every operation", len(alphabet), depth, depth)}
